@@ -23,7 +23,7 @@ MANIFEST = {
               "inside an escape sequence."),
     "note": ("Trusted: rustc front end; path enumerator. Not decided: the full equality of outputs for the two-phase scanners "
              "(implied by C01's undecided invariant plus these conditions)."),
-    "technique": "static analysis: typestate rules on the carried parser state (S1/S2) and the only-two-advances rule (S5), ownership/borrow facts of iterator types, value-flow (origin) rules for the byte-at-a-time extractor, abstract evaluation of the run epilogue, who-may-write, static-item inventory",
+    "technique": "static analysis: typestate rules on the carried parser state (S1/S2) the only-two-advances rule (S5) and the stop-byte rule (S6), abstract evaluation of the one-shot strippers' between-slices methods and of constructors against Default, ownership/borrow facts of iterator types, value-flow (origin) rules for the byte-at-a-time extractor, abstract evaluation of the run epilogue, who-may-write, static-item inventory",
 }
 
 AD = "anstream::adapter::"
